@@ -440,6 +440,13 @@ def nontrivial(case):
 
 def shrink(case):
     ops = case["ops"]
+    status = [i for i, op in enumerate(ops) if op[0] == "E"]
+    if len(status) > 2:                 # drop all status calls but one / half of them at once
+        for keep in (status[:1], status[-1:], status[:len(status) // 2], status[len(status) // 2:]):
+            yield dict(case, ops=[op for i, op in enumerate(ops) if op[0] != "E" or i in keep])
+    if len(ops) > 3:
+        yield dict(case, ops=ops[:len(ops) // 2])
+        yield dict(case, ops=ops[len(ops) // 2:])
     for i in range(len(ops)):
         yield dict(case, ops=ops[:i] + ops[i + 1:])
     for i, op in enumerate(ops):
